@@ -104,6 +104,16 @@ def check_growth(case):
             v.setup(case["Vdiv"], noise, case["growth_expr"], M)
         v.py_initialize(x0, params, 0.0, V0)
         t_div = None
+    if case.get("warm_factor"):
+        # the volume object was used before, on a grid with another step, and is initialised again for this run
+        wdt = dt * case["warm_factor"]
+        I.py_set_dt(wdt)
+        with specmod.quiet():
+            VolumeSSASimulator().py_volume_simulate(I, v, np.array([i * wdt for i in range(4)], dtype=float))
+        v.py_initialize(x0, params, 0.0, V0)
+        I.py_set_dt(dt)
+        py_seed_random(case["seed"])
+        res.label("volume_object_used_before_with_another_step")
     with specmod.quiet():
         r = VolumeSSASimulator().py_volume_simulate(I, v, tp)
     vols = np.asarray(r.py_get_volume(), dtype=float)
@@ -246,7 +256,8 @@ def growth_cases(draw):
     case = {"kind": "growth", "spec": sp, "vtype": vtype, "g": g, "V0": V0, "Vdiv": Vdiv, "dt": dt, "n": n,
             "noise": draw(st.sampled_from([0.0, 0.0, 0.0, 0.05, 0.2])), "zero_propensity": zero,
             "growth_expr": draw(st.sampled_from(["gr", "gr + 0*A", "gr*1"])), "seed": draw(st.integers(1, 2 ** 40)),
-            "first_step": draw(st.sampled_from([0, 0, 0, 1, 2, 5]))}
+            "first_step": draw(st.sampled_from([0, 0, 0, 1, 2, 5])),
+            "warm_factor": draw(st.sampled_from([None, None, None, 4.0, 0.25, 8.0]))}
     return case
 
 
